@@ -27,6 +27,59 @@ impl Read for ShortReader<'_> {
     }
 }
 
+/// a writer that takes at most `k` bytes per call (what sockets and pipes do) and answers the
+/// first call with `Interrupted` when `intr` is set — both are within `io::Write`'s contract
+pub struct ShortWriter {
+    pub out: Vec<u8>,
+    pub k: usize,
+    pub intr: bool,
+}
+
+impl std::io::Write for ShortWriter {
+    fn write(&mut self, buf: &[u8]) -> std::io::Result<usize> {
+        if self.intr {
+            self.intr = false;
+            return Err(std::io::Error::new(std::io::ErrorKind::Interrupted, "interrupted"));
+        }
+        let n = buf.len().min(self.k);
+        self.out.extend_from_slice(&buf[..n]);
+        Ok(n)
+    }
+    fn flush(&mut self) -> std::io::Result<()> {
+        Ok(())
+    }
+}
+
+/// writers other than a Vec: short writes, an interrupted first write, an exactly sized slice
+/// (complete output) and a slice one byte too small (must be an error, never a silent cut)
+fn writer_kinds(st: &str, want: &[u8], write: &dyn Fn(&mut dyn std::io::Write) -> Result<(), String>) -> Vec<(&'static str, String)> {
+    let mut out = vec![];
+    for (k, intr) in [(1usize, false), (3, false), (2, true)] {
+        let mut w = ShortWriter { out: vec![], k, intr };
+        let res = write(&mut w);
+        if res.is_err() || w.out != want {
+            out.push(("to_writer(short writes)", format!("{}: a writer taking {} byte(s) per call{} received {:?} ({:?}), to_vec = {:?}", st, k, if intr { " after one Interrupted" } else { "" }, String::from_utf8_lossy(&w.out), res, String::from_utf8_lossy(want))));
+        }
+    }
+    let mut exact = vec![0u8; want.len()];
+    {
+        let mut sl: &mut [u8] = &mut exact[..];
+        let res = write(&mut sl);
+        let left = sl.len();
+        if res.is_err() || left != 0 || exact != want {
+            out.push(("to_writer(exact slice)", format!("{}: writing into an exactly sized slice gave {:?}, {} bytes unused", st, res, left)));
+        }
+    }
+    if !want.is_empty() {
+        let mut small = vec![0u8; want.len() - 1];
+        let mut sl: &mut [u8] = &mut small[..];
+        if write(&mut sl).is_ok() {
+            out.push(("to_writer(slice too small)", format!("{}: writing {} bytes into a slice of {} reported success", st, want.len(), want.len() - 1)));
+        }
+    }
+    out
+}
+
 impl std::io::BufRead for ShortReader<'_> {
     fn fill_buf(&mut self) -> std::io::Result<&[u8]> {
         let n = if self.k > 0 { self.data.len().min(self.k) } else { self.data.len() };
@@ -174,6 +227,9 @@ pub fn check_case_tagged(shape: &Shape, val: &Val, r: &mut Report, tag: Option<&
         Ok(()) if w == a => {}
         other => fail(r, "json", "serializers-agree", "to_writer", format!("{}: to_writer = {:?} / {:?}, to_vec = {:?}", st, other.map_err(|e| e.to_string()), String::from_utf8_lossy(&w), String::from_utf8_lossy(&a))),
     }
+    for (path, msg) in writer_kinds(&st, &a, &|w| cj::to_writer(w, &typed).map_err(|e| e.to_string())) {
+        fail(r, "json", "serializers-agree", path, msg);
+    }
     {
         use serde::Serialize as _;
         let mut w1 = vec![];
@@ -237,6 +293,9 @@ pub fn check_case_tagged(shape: &Shape, val: &Val, r: &mut Report, tag: Option<&
     match cs::to_writer(&mut w, &typed) {
         Ok(()) if w == b => {}
         other => fail(r, "smile", "serializers-agree", "to_writer", format!("{}: smile to_writer differs from to_vec ({:?})", st, other.map_err(|e| e.to_string()))),
+    }
+    for (path, msg) in writer_kinds(&st, &b, &|w| cs::to_writer(w, &typed).map_err(|e| e.to_string())) {
+        fail(r, "smile", "serializers-agree", path, msg);
     }
     {
         use serde::Serialize as _;
